@@ -34,7 +34,7 @@ for bad in ["(1 . )", "( . 1)", "(1 . 2 3)", ")", "(a"]:
 # REPL completeness reference
 check(c18.ref_complete("(display \"(\")") is True and c18.ref_complete("(display \"(") is False and c18.ref_complete("#\\(") is True and c18.ref_complete("(a ; )\n") is False, "ref_complete")
 # evaluator
-run = lambda *forms: [(k, v if k == "err" else (display_text(v) if v is not None else None), t) for k, v, t, o in diff.model_run([P(f) for f in forms], Strategy())]
+run = lambda *forms: [(k, v if k == "err" else (display_text(v) if v is not None else None), t) for k, v, t, o, _n in diff.model_run([P(f) for f in forms], Strategy())]
 check(run("(define (f . r) r)", "(f 1 2)")[1][1] == "(1 2)", "rest parameters")
 check(run("(define x 5)", "(or #f x)")[1][1] == "5", "hygienic or")
 check(run("(let ((x 1)) (let ((x 2) (y x)) (list x y)))")[0][1] == "(2 1)", "let initialisers outside the scope")
